@@ -347,6 +347,12 @@ func (i Interval) Expanded(margin float64) Interval {
 	if result.Lo <= -math.Pi {
 		result.Lo = math.Pi
 	}
+	if margin >= 0 && !result.ContainsInterval(i) {
+		// Rounding errors in the test above let the expanded endpoints cross
+		// (the interval was within a few ulps of being full): the expansion
+		// covers the whole circle.
+		return FullInterval()
+	}
 	return result
 }
 
